@@ -29,6 +29,8 @@ type MachineProvider interface {
 
 	StatesList() []fsm.State
 
+	FinStatesList() []fsm.State
+
 	IsFinState(state fsm.State) bool
 }
 
@@ -123,6 +125,17 @@ func Init(machines ...MachineProvider) *FSMPool {
 				p.states[state] = machineName
 			}
 
+		}
+	}
+
+	// Third iteration, all source states are filled up.
+	// A finish state which is not continued by another machine belongs
+	// to the machine it finishes, so that a dump taken there can be restored.
+	for _, machine := range machines {
+		for _, state := range machine.FinStatesList() {
+			if _, exists := p.states[state]; !exists {
+				p.states[state] = machine.Name()
+			}
 		}
 	}
 
